@@ -758,6 +758,67 @@ TRUSTED = ['harness/c17.py observation of ODL objects (type, space, np.shares_me
            'C17/Arr.v exact semantics of the modelled ufunc methods (validated against NumPy by the raw half of each case)']
 
 
+# ---- legacy interface on (nested) power spaces: element trees
+def tree_term(x):
+    import odl
+    if isinstance(x.space, odl.ProductSpace):
+        return '(PNode %s)' % C.lst([tree_term(p) for p in x])
+    a = np.asarray(x)
+    return '(PLeaf %s %s)' % (dt_term(a.dtype), C.qs(data_list(a)))
+
+
+def rand_tree_space(rng, depth, dtype):
+    import odl
+    if depth == 0:
+        shape = rand_shape(rng, rng.choice([1, 1, 2]))
+        if rng.random() < 0.3:
+            return discr_space_for(rng, shape, dtype)
+        return odl.tensor_space(shape, dtype=dtype)
+    return rand_tree_space(rng, depth - 1, dtype) ** rng.randint(1, 3)
+
+
+def fill(rng, space, lo=-4, hi=4):
+    import odl
+    if isinstance(space, odl.ProductSpace):
+        return space.element([fill(rng, sp, lo, hi) for sp in space])
+    return space.element(ivals(rng, space.shape, lo, hi, dtype=space.dtype))
+
+
+def legacy_cases(rng, tier):
+    cs = C.CaseSet('legacy', ['C17.Arr', 'C17.Model', 'C17.Legacy', 'C17.Corr'], 'check_legacy', 'lcase')
+    reps = 2 if tier == 'quick' else 8
+    ops = [('negative', 'LU UNeg', None), ('absolute', 'LU UAbs', None), ('square', 'LU USquare', None),
+           ('sign', 'LU USign', None),
+           ('add', 'LSc BAdd %s', 'c'), ('multiply', 'LSc BMul %s', 'c'), ('maximum', 'LSc BMax %s', 'c'),
+           ('subtract', 'LSc BSub %s', 'c'), ('true_divide', 'LHalf', 2)]
+    for _ in range(reps):
+        for depth in (0, 1, 2, 3):
+            for dtype in ('float64', 'int64', 'float32'):
+                for name, opt, arg in ops:
+                    space = rand_tree_space(rng, depth, dtype)
+                    x = fill(rng, space)
+                    args = []
+                    if arg == 'c':
+                        c = rng.randint(-3, 3)
+                        args = [c if np.dtype(dtype).kind == 'i' else float(c)]
+                        opt = opt % C.q(c)
+                    elif arg == 2:
+                        args = [2 if np.dtype(dtype).kind == 'i' else 2.0]
+                    uf = getattr(np, name)
+                    try:
+                        leg = getattr(x.ufuncs, name)(*args)
+                        npc = uf(x, *args)
+                        rd = uf(np.zeros(1, dtype=dtype) + 1, *args).dtype
+                        t = '(mkLCase (%s) %s %s %s %s)' % (
+                            opt, C.lst(['(%s, %s)' % (dt_term(dtype), dt_term(rd))]), tree_term(x),
+                            tree_term(leg), tree_term(npc))
+                    except Skip:
+                        continue
+                    cs.add(t, {'legacy': name, 'depth': depth, 'dtype': dtype, 'shape': list(space.shape)},
+                           (name, depth, dtype, rd.name))
+    return cs
+
+
 def correspondence(rng, tier):
     global VARIANTS
     VARIANTS = None
@@ -771,7 +832,7 @@ def correspondence(rng, tier):
         desc['odl'] = odl_s
         desc['raw'] = raw_s
         cs.add(t, desc, None if 'err' in raw_s else key)
-    return [cs]
+    return [cs, legacy_cases(rng, tier)]
 
 
 # ------------------------------------------------------------------ probes
